@@ -34,8 +34,8 @@ REACH = [
     "insights/core/__init__.py::LogFileOutput.get_after",
 ]
 PLAN = {
-    "quick": {"shards": 8, "cases": 3000, "timeout_s": 900, "min_evaluations": 20000,
-              "min_counters": {"command_outputs": 5000, "json_documents": 5000, "yaml_documents": 5000, "searches_compared": 15000, "get_after_queries": 5000}},
+    "quick": {"shards": 8, "cases": 30000, "timeout_s": 900, "min_evaluations": 200000,
+              "min_counters": {"command_outputs": 50000, "json_documents": 50000, "yaml_documents": 50000, "searches_compared": 150000, "get_after_queries": 50000}},
     "thorough": {"shards": 16, "cases": 70000, "timeout_s": 3300, "min_evaluations": 1000000,
                  "min_counters": {"command_outputs": 250000}},
 }
